@@ -94,7 +94,7 @@ class V(object):
         cls = self.m.cls(clsname)
         props = cls["properties"]
         has_toplevel_ext = False
-        if toplevel and isinstance(doc.get("extensions"), dict):
+        if "extensions" in props and isinstance(doc.get("extensions"), dict):
             for k, ev in doc["extensions"].items():
                 if isinstance(ev, dict) and ev.get("extension_type") == "toplevel-property-extension":
                     has_toplevel_ext = True
